@@ -405,6 +405,17 @@ theorem interleaved (tables : List Tbl) (iters order : List Nat) (res : List (Na
   startIters_lines tables tables iters order [] res rfl
     (fun k t t0 hk hk0 => by rw [hk] at hk0; cases hk0; rfl) (fun p hp => by simp at hp) h
 
+/-- The same for the function the driver runs (`runEvents`, which also lets the caller change limits
+or append records between the steps): as long as nothing is changed in between, it is `startIters`,
+so every iterator yields its own table's lines. With changes in between an iterator yields the lines
+of its table as it is when the iterator is started (that is how `runEvents` is defined: the lines are
+fixed at the first advance; the tie checks this against the lazy generator of the real code). -/
+theorem interleaved_run (tables : List Tbl) (iters order : List Nat) (res : List (Nat × List Line))
+    (h : runEvents tables iters (order.map Ev.start) [] = .ok res) :
+    ∀ p ∈ res, ∃ ti t, iters[p.1]? = some ti ∧ tables[ti]? = some t ∧ lines t = .ok p.2 := by
+  rw [runEvents_starts] at h
+  exact interleaved tables iters order res h
+
 /-- A format object carries everything over. A table built with `fmt_obj=` from the format of a
 table `t` (fresh or printed: `WidthsFaithful` holds for every table made by the constructor or the
 setter and is kept by printing) with the same records, header and footer prints exactly what `t`
